@@ -96,6 +96,36 @@ def sim_histories(work, seed, n, depth=40):
     return out
 
 
+def populated_prefix():
+    """One block that leaves something in every custom store: a topic with a writer and records, an active DID, an updated DID, a DEACTIVATED DID (tombstone),
+    a denom with two tokens (one transferred) and an empty denom.  Abstract transactions in MC.tla's message format; the harness insists that all succeed."""
+    def doc(d, key):
+        return dict(id=d, vms=[dict(n='v1', key=key, type='es19')], auth=[dict(n='v1', ded=False, key='', type='')], asrt=[], ex='')
+
+    def T(msg, signer):
+        return dict(msgs=[msg], signers=[signer], fee=0, exec='none')
+
+    def create(d, key):
+        dc = doc(d, key)
+        return T(dict(type='did.Create', did=d, doc=dc, vm='v1', vmDid=d, proof=dict(key=key, data=dc, seq=0), **{'from': 'a1'}), 'a1')
+    deact = dict(id='d1', vms=[], auth=[], asrt=[], ex='')
+    up = doc('dc', 'k2')
+    return [
+        T(dict(type='aol.CreateTopic', owner='a1', topic='t1', desc='x'), 'a1'),
+        T(dict(type='aol.AddWriter', owner='a1', topic='t1', writer='a2', mon='m', desc='x'), 'a1'),
+        T(dict(type='aol.AddRecord', owner='a1', topic='t1', writer='a2', key='k1', val='v1', feePayer='none'), 'a2'),
+        T(dict(type='aol.AddRecord', owner='a1', topic='t1', writer='a2', key='', val='', feePayer='none'), 'a2'),
+        create('d1', 'k1'), create('dc', 'k1'), create('d2', 'k1'),
+        T(dict(type='did.Deactivate', did='d1', vm='v1', vmDid='d1', proof=dict(key='k1', data=deact, seq=0), **{'from': 'a1'}), 'a1'),
+        T(dict(type='did.Update', did='dc', doc=up, vm='v1', vmDid='dc', proof=dict(key='k1', data=up, seq=0), **{'from': 'a1'}), 'a1'),
+        T(dict(type='pnft.CreateDenom', id='n1', actor='a1', name='x', symbol='S', desc='', uri='', hash='', data=''), 'a1'),
+        T(dict(type='pnft.CreateDenom', id='n2', actor='a2', name='y', symbol='S', desc='', uri='', hash='', data=''), 'a2'),
+        T(dict(type='pnft.Mint', denom='n1', id='i1', actor='a1', name='x', desc='', uri='u', hash='', data=''), 'a1'),
+        T(dict(type='pnft.Mint', denom='n1', id='i2', actor='a1', name='y', desc='', uri='u', hash='', data=''), 'a1'),
+        T(dict(type='pnft.Transfer', denom='n1', id='i2', actor='a1', to='a2'), 'a1'),
+    ]
+
+
 def shape_history(txs, shape):
     out, i = [], 0
     for n in shape:
@@ -236,6 +266,9 @@ def node_check(pid, tier, seed):
                         variants.append(v2)
                 for vi, sch in enumerate(variants):
                     jobs.append(dict(id='%s-%d-%d-%d' % (pid, si, r, vi), cfg={}, blocks=shape_history(txs, sc['shape']), schedule=sch, upgradeAt=sc['upgradeAt']))
+                    if pid == 'C19' and (si + r + vi) % 2 == 0:
+                        # the same schedule over a state in which every custom store is populated (incl. a DID tombstone) before the upgrade block
+                        jobs.append(dict(jobs[-1], id=jobs[-1]['id'] + '-pop', prefix=populated_prefix()))
         if pid == 'C10':
             # long histories around a rolled-back multi-message transaction; one crash anywhere
             pf = partial_failure_histories(work, seed, 80 if q else 600)[: (6 if q else 60)]
@@ -651,7 +684,7 @@ def signbytes_check(tier, seed):
     try:
         vlib.copy_spec(work)
         harness = vlib.build_harness()
-        consts = configs.mk(Accts=S(['a1', 'a2']), Topics=S(['t1', 't2']), Descs=S(['', 'x']), Mons=S(['', 'm']), RecKeys=S(['', 'k1']), RecVals=S(['', 'v1']) if q else S(['', 'v1', 'v2']),
+        consts = configs.mk(Accts=S(['a1', 'a2']), Topics=S(['t1', 't2']), Descs=S(['', 'x', ' x']), Mons=S(['', 'm', 'm ']), RecKeys=S(['', 'k1']), RecVals=S(['', 'v1']) if q else S(['', 'v1', 'v1\\t']),
                             FeePayers=S(['none', 'a1', 'a2']), Dids=S(['d1', 'dc']), DocNames=S(['A1', 'A2']) if q else S(['A1', 'A2', 'C1', 'D2']), Keys=S(['k1']) if q else S(['k1', 'k2']),
                             VmNames=S(['v1']), Seqs=S([0]) if q else S([0, 1]), DenomIds=S(['n1', 'n2']), TokenIds=S(['i1', 'i2']), DNames=S(['x', 'y']),
                             Kinds=configs.AOL_KINDS | configs.DID_KINDS | configs.PN_KINDS)
@@ -699,7 +732,7 @@ def signbytes_check(tier, seed):
         cov = dict(states=dist, transitions=gen, traces_validated_against_impl=len(cases), samples=[cases[0], cases[len(cases) // 2]], evaluations=len(cases) * 3,
                    distinct_nontrivial=len(cases),
                    rule='every message of the alphabet (14 types, every field from a small set that includes the empty value; %d messages) has its REAL sign bytes computed in DIRECT, DIRECT_AUX and '
-                        'LEGACY_AMINO_JSON (three times in-process and once in a GOMAXPROCS=1 process); all ordered pairs are compared through sorting; the specification side checks all ordered pairs' % len(cases),
+                        'LEGACY_AMINO_JSON (three times in-process from the signer\'s value, once as the node\'s verifier computes them - encoded, decoded, ValidateBasic run - and once in a GOMAXPROCS=1 process; descriptions/monikers with surrounding white space included); all ordered pairs are compared through sorting; the specification side checks all ordered pairs' % len(cases),
                    exhaustive=True, real_amino_collision_groups=len(coll), model_predicts_known_collisions=model_has_collisions,
                    example_collision=[[r['type'], byid[r['id']]['m']] for r in coll[0][:3]] if coll else None)
         return conclude(pid, tier, seed, t0, viol, drift, cov,
